@@ -11,6 +11,7 @@ import (
 	"strconv"
 	"strings"
 	"sync/atomic"
+	"sync"
 	"time"
 
 	"verifharness/internal/hx"
@@ -32,6 +33,28 @@ func classify(ctx context.Context, err error) string {
 	}
 	return "other"
 }
+
+// dlCtx is a context that ends the way a deadline ends a context (Err() = context.DeadlineExceeded) at the moment the
+// script says so: a waiter may give up because its deadline passed just as well as because it was cancelled
+type dlCtx struct {
+	done chan struct{}
+	once sync.Once
+	at   time.Time
+}
+
+func newDlCtx() *dlCtx { return &dlCtx{done: make(chan struct{}), at: time.Now().Add(30 * time.Second)} }
+func (c *dlCtx) Deadline() (time.Time, bool) { return c.at, true }
+func (c *dlCtx) Done() <-chan struct{}       { return c.done }
+func (c *dlCtx) Value(any) any               { return nil }
+func (c *dlCtx) Err() error {
+	select {
+	case <-c.done:
+		return context.DeadlineExceeded
+	default:
+		return nil
+	}
+}
+func (c *dlCtx) expire() { c.once.Do(func() { close(c.done) }) }
 
 type mwaiter struct {
 	idx      int
@@ -303,6 +326,10 @@ func (m *memRun) runStep(o Step) bool {
 		}
 		ver := m.version(o.K, o.V)
 		ctx, cancel := context.WithCancel(bg)
+		if o.Dl { // this caller's context ends by its deadline
+			d := newDlCtx()
+			ctx, cancel = d, d.expire
+		}
 		if o.Pre {
 			cancel()
 		}
